@@ -322,9 +322,24 @@ func (c *cluster) pushPull(only int) {
 func RunCluster(t *testing.T, sc *ClusterScenario) *Trace {
 	tr := &Trace{}
 	synctest.Test(t, func(*testing.T) { runCluster(sc, tr) })
+	type fk struct {
+		inst int
+		ag   string
+		fl   uint64
+	}
+	entered := map[fk]time.Time{}
+	for _, pe := range tr.PipelineEnters {
+		k := fk{pe.Inst, pe.AggrGroupID, pe.FlushID}
+		if _, ok := entered[k]; !ok {
+			entered[k] = pe.At
+		}
+	}
 	for i := range tr.Attempts {
 		a := &tr.Attempts[i]
 		a.Flush = a.T
+		if at, ok := entered[fk{a.Inst, a.AggrGroupID, a.FlushID}]; ok {
+			a.Flush = at
+		}
 	}
 	return tr
 }
@@ -625,11 +640,26 @@ func JudgeCluster(sc *ClusterScenario, tr *Trace) ([]pbt.Violation, ClusterStats
 		}
 		return best
 	}
+	// waitedFull: the attempt was made after the instance had sat through its whole cluster wait (position x peer
+	// timeout) counted from the start of the flush, as the stage order of the unchanged tree implies. A stale view sent
+	// after a SHORTER wait is not the known finding F15 but a wait that is too short.
+	waitedFull := func(a *Attempt) bool {
+		return a.T.Sub(a.Flush) >= time.Duration(sc.Positions[a.Inst])*pt
+	}
+	writeWaitedFull := func(w LogWrite) bool {
+		for i := range tr.Attempts {
+			a := &tr.Attempts[i]
+			if a.Inst == w.Inst && a.GroupKey == w.GroupKey && a.Receiver == w.Receiver && a.Idx == w.Idx && a.Done.Equal(w.At) {
+				return waitedFull(a)
+			}
+		}
+		return true
+	}
 	staleWrite := func(gk, receiver string, idx int, delivered time.Time) bool {
 		for _, w := range tr.LogWrites {
 			wait := time.Duration(sc.Positions[w.Inst]) * pt
 			if w.GroupKey == gk && w.Receiver == receiver && w.Idx == idx && wait > 0 &&
-				w.At.After(delivered) && delivered.After(frozenAt(w)) {
+				w.At.After(delivered) && delivered.After(frozenAt(w)) && writeWaitedFull(w) {
 				return true
 			}
 		}
@@ -836,17 +866,24 @@ func JudgeCluster(sc *ClusterScenario, tr *Trace) ([]pbt.Violation, ClusterStats
 					stale := false
 					// ... or the duplicate itself comes from such an instance: it froze the group before the other
 					// delivery and sends after its wait
-					if wait := time.Duration(sc.Positions[a.Inst]) * pt; wait > 0 && !a.Tick.After(prev.Done) && prev.Done.After(a.T.Add(-wait-time.Second)) {
+					if wait := time.Duration(sc.Positions[a.Inst]) * pt; wait > 0 && !a.Tick.After(prev.Done) && prev.Done.After(a.T.Add(-wait-time.Second)) && waitedFull(a) {
 						stale = true
 					}
 					// ... or it decides against a log entry that is newer than the view it froze at its tick
-					if sc.Positions[a.Inst] > 0 && a.Entry != nil && a.Entry.Found && a.Entry.Timestamp.After(a.Tick) {
+					if sc.Positions[a.Inst] > 0 && a.Entry != nil && a.Entry.Found && a.Entry.Timestamp.After(a.Tick) && waitedFull(a) {
+						stale = true
+					}
+					// ... or the delivery it is compared with is itself such a stale view: prev's instance is a
+					// later-positioned one that froze the group at its tick, and after its cluster wait decided against (and
+					// then wrote over) a log entry another instance had made in the meantime; the "same group state" prev
+					// announced is the state before that other delivery, not the one a reports
+					if sc.Positions[prev.Inst] > 0 && prev.Entry != nil && prev.Entry.Found && prev.Entry.Timestamp.After(prev.Tick) && waitedFull(prev) {
 						stale = true
 					}
 					for _, w := range tr.LogWrites {
 						wait := time.Duration(sc.Positions[w.Inst]) * pt
 						if w.GroupKey == a.GroupKey && w.Receiver == a.Receiver && w.Idx == a.Idx && wait > 0 &&
-							w.At.After(prev.Done) && prev.Done.After(frozenAt(w)) &&
+							w.At.After(prev.Done) && prev.Done.After(frozenAt(w)) && writeWaitedFull(w) &&
 							(w.At.Before(a.T) || (w.At.Equal(a.T) && w.Inst != a.Inst && a.Entry != nil && a.Entry.Found && a.Entry.Timestamp.Equal(w.At))) {
 							// (a write at the very instant of the duplicate counts when the duplicate's dedup read saw it)
 							stale = true
